@@ -203,6 +203,14 @@ class AxisTaint:
                     a = self.of(t.then, safe | {(tag, True)})
                     b = self.of(t.other, safe | {(tag, False)})
                     return AX if AX in (a, b) else None
+            if c.op == "cmp" and c.opname in ("Is", "IsNot", "Eq", "NotEq") and c.r.op == "const" and c.r.value is None:
+                k = self.key(c.l)
+                if k is not None and self._is_ax_quiet(c.l):
+                    # in the branch where the axis is None there is no axis to be negative
+                    none_then = c.opname in ("Is", "Eq")
+                    a = self.of(t.then, safe | {k} if none_then else safe)
+                    b = self.of(t.other, safe if none_then else safe | {k})
+                    return AX if AX in (a, b) else None
             gk = self._guard(c)
             if gk is not None:
                 # `if axis < 0: raise ...` sanitises the other branch; `if axis < 0: axis = axis + n` is the
